@@ -275,6 +275,33 @@ func (x *Exec) eval(env *CEnv, e CExpr) (*CV, error) {
 		return &CV{T: Ite(c, at, bt), Ty: ty}, nil
 	case *CQuant:
 		return x.evalQuant(env, n)
+	case *CAnyTable:
+		pkg := ""
+		if env.pkg != nil {
+			pkg = env.pkg.Path()
+		}
+		tbl, ok := x.w.stringTable(pkg, n.Table)
+		if !ok {
+			tbl, ok = x.w.stringTable(repoMod+"/shovel/glf", n.Table)
+		}
+		if !ok {
+			return nil, fmt.Errorf("anytable: no constant string table %q", n.Table)
+		}
+		var ds []Term
+		for _, lit := range tbl {
+			inner := *env
+			inner.vars = map[string]*CV{}
+			for kk, v := range env.vars {
+				inner.vars[kk] = v
+			}
+			inner.vars[n.Var] = &CV{T: x.strLit(lit), Ty: types.Typ[types.String]}
+			t, err := x.evalBool(&inner, n.Body)
+			if err != nil {
+				return nil, err
+			}
+			ds = append(ds, t)
+		}
+		return &CV{T: Or(ds...), Ty: types.Typ[types.Bool]}, nil
 	case *CAll:
 		var cs []Term
 		for k := n.Lo; k <= n.Hi; k++ {
